@@ -360,6 +360,31 @@ async def run_mqtt(ctx) -> None:
         else:
             continue
         break
+    # reference token bucket (the documented scheme: 80 tokens per 60 s; a one-off start-up allowance of 160 that shrinks as it is
+    # used and never comes back; a write that would have to wait >= 1 s is dropped; un-limited writes still cost a token),
+    # replayed over the calls in the order they were made
+    tokens = mx = 2.0 * MQ_TOKENS
+    t_prev = None
+    published = set(cnt)
+    for i, e in sim.calls.items():  # insertion order = call order
+        d = next(d for v in by_task.values() for d in v if d["id"] == i)
+        t_prev = t_start if t_prev is None else t_prev
+        tokens = min(tokens + (e["call"] - t_prev) * MQ_RATE, mx)
+        t_prev = e["call"]
+        unlimited = bool(d.get("no_limits"))
+        if tokens < 1.0 - MQ_RATE and not unlimited:
+            if e["frame"] in published:
+                ctx.violate("C11", "mqtt_tokens", "over_budget_write_published", f"call {i} at {e['call'] - t_start:.2f} s found the bucket "
+                            f"at {tokens:.2f} tokens (allowance {mx:.1f}): it must be dropped, but {e['frame']!r} was published")
+                break
+            continue
+        tokens -= 1.0
+        if mx > MQ_TOKENS:
+            mx = max(min(mx, tokens), float(MQ_TOKENS))
+        if e["frame"] not in published and e["exc"] is None:
+            ctx.violate("C11", "conservation", "within_budget_write_dropped", f"call {i} at {e['call'] - t_start:.2f} s was within the "
+                        f"allowance ({tokens + 1:.2f} tokens) but {e['frame']!r} was never published")
+            break
     order_ok = [f for t, f in pubs]
     dropped = sum(1 for e in sim.calls.values() if e["frame"] not in cnt)
     ctx.probe("mqtt_dropped", dropped)
